@@ -831,6 +831,62 @@ pub(crate) mod verif_probe {
                            "databases": cp.databases.len()})
                 }))
             }
+            "entrypoint_drain" => {
+                // the real client_entrypoint over loopback TCP: what does the drain channel (main()'s count of connected clients) sum to
+                // once the client's session is over?  scenario: "terminate" | "drop" (socket closed without Terminate) | "bad_startup"
+                let rt = tokio::runtime::Builder::new_multi_thread().worker_threads(2).enable_all().build().unwrap();
+                let vv = v.clone();
+                let r = rt.block_on(async move { timeout(Duration::from_secs(20), async move {
+                    let tag = format!("{}", std::time::SystemTime::now().duration_since(std::time::UNIX_EPOCH).unwrap().as_nanos());
+                    let db = format!("verif_ep_{}", tag);
+                    let usern = "verif_user".to_string();
+                    let be = TcpListener::bind("127.0.0.1:0").await.unwrap();
+                    let be_port = be.local_addr().unwrap().port();
+                    tokio::spawn(fake_postgres(be));
+                    let csmap: ClientServerMap = Arc::new(Mutex::new(HashMap::new()));
+                    install_pool(&db, &usern, be_port, csmap.clone());
+                    let front = TcpListener::bind("127.0.0.1:0").await.unwrap();
+                    let front_port = front.local_addr().unwrap().port();
+                    let (shutdown_tx, _keep) = tokio::sync::broadcast::channel::<()>(1);
+                    let (drain_tx, mut drain_rx) = tokio::sync::mpsc::channel::<i32>(64);
+                    let shutdown_rx = shutdown_tx.subscribe();
+                    let csm2 = csmap.clone();
+                    let ep = tokio::spawn(async move {
+                        let (sock, _) = front.accept().await.unwrap();
+                        crate::client::client_entrypoint(sock, csm2, shutdown_rx, drain_tx, false, None, false).await
+                    });
+                    let scenario = vv["scenario"].as_str().unwrap_or("terminate").to_string();
+                    let mut c = tokio::net::TcpStream::connect(("127.0.0.1", front_port)).await.unwrap();
+                    let user_for_startup = if scenario == "bad_startup" { "nobody".to_string() } else { usern.clone() };
+                    let mut body = BytesMut::new();
+                    body.put_i32(196608);
+                    body.put_slice(b"user\0"); body.put_slice(user_for_startup.as_bytes()); body.put_slice(b"\0database\0"); body.put_slice(db.as_bytes()); body.put_slice(b"\0\0");
+                    let mut pkt = BytesMut::new(); pkt.put_i32(body.len() as i32 + 4); pkt.put(body);
+                    let _ = c.write_all(&pkt).await;
+                    // read until ReadyForQuery or error/EOF
+                    let mut logged_in = false;
+                    loop {
+                        let code = match timeout(Duration::from_secs(3), c.read_u8()).await { Ok(Ok(x)) => x, _ => break };
+                        let len = match c.read_i32().await { Ok(l) => l, Err(_) => break };
+                        let mut b = vec![0u8; (len as usize).saturating_sub(4)];
+                        if c.read_exact(&mut b).await.is_err() { break; }
+                        if code == b'Z' { logged_in = true; break; }
+                        if code == b'E' { break; }
+                    }
+                    if logged_in {
+                        let _ = c.write_all(&simple_query("SELECT 1")).await;
+                        let mut buf = [0u8; 512];
+                        let _ = timeout(Duration::from_millis(500), c.read(&mut buf)).await;
+                        if scenario == "terminate" { let _ = c.write_all(&[b'X', 0, 0, 0, 4]).await; }
+                    }
+                    drop(c);
+                    let res = match timeout(Duration::from_secs(5), ep).await { Ok(Ok(Ok(()))) => "ok".to_string(), Ok(Ok(Err(e))) => format!("err: {:?}", e), _ => "other".to_string() };
+                    let mut vals = vec![];
+                    while let Ok(x) = drain_rx.try_recv() { vals.push(x); }
+                    json!({"scenario": scenario, "logged_in": logged_in, "result": res, "drain": vals, "sum": vals.iter().sum::<i32>()})
+                }).await });
+                Some(match r { Ok(x) => x, Err(_) => json!({"error": "scenario timed out"}) })
+            }
             "capacity_probe" => {
                 // real from_config with user.pool_size = n, then n+extra concurrent checkouts against a live reference backend:
                 // how many are held at once?
